@@ -55,8 +55,7 @@ let rec json c =
       let n = int_of_string (rest t) in
       (* serde_json::Map::insert: a later duplicate key replaces the earlier value *)
       let items = List.init n (fun _ -> let k = str_of_field (next c) in let v = json c in (k, v)) in
-      let dedup = List.fold_left (fun acc (k, v) -> (k, v) :: List.filter (fun (k', _) -> k' <> k) acc) [] items in
-      JObj (List.rev dedup)
+      JObj (List.fold_left (fun acc (k, v) -> obj_insert k v acc) [] items)
     | o -> failwith ("json " ^ o)
 
 let vars c =
